@@ -38,7 +38,7 @@ PROBES = ["list_ge_10_items", "depth_ge_2", "depth_ge_3", "multi_line_paragraph"
           "title_changed_after_serialise", "clear_root", "clear_directive", "serialise_ge_3", "section_used",
           "mutation_after_serialise"]
 
-HEADER_SETS = [["#", "*", "=", "-"], ["=", "-", "~", "^"], ["^", "+"], ["*", "="]]
+HEADER_SETS = [["#", "*", "=", "-"], ["=", "-", "~", "^"], ["^", "+"], ["*", "="], ["~", "#", "+"], ["-", "="]]
 OPS = ["text", "text", "field", "bul", "enum", "dir", "dir", "dir", "opt", "section", "title", "clear", "ser", "ser"]
 
 
@@ -48,7 +48,7 @@ def swarm(rng, tier):
 
 def strategy(cfg):
     op = st.tuples(st.sampled_from(OPS), st.integers(0, 11), st.integers(0, 7), st.integers(0, 3))
-    return st.fixed_dictionaries({"headers": st.just(HEADER_SETS[cfg["headers"]]),
+    return st.fixed_dictionaries({"headers": st.sampled_from(HEADER_SETS),
                                   "title": st.sampled_from(["T", "Top title", "A longer document title 123"]),
                                   "ops": st.lists(op, min_size=1, max_size=cfg["max_ops"])})
 
